@@ -366,6 +366,8 @@ type Link struct {
 	fcut    *FrameCut
 	trk     [2]tracker
 	stall   [2]bool // writes in this direction block (the peer is alive but not reading and the buffers are full)
+	werr    [2]bool // writes in this direction fail (the sender's half of the connection is broken) while nobody is told
+	eof     [2]bool // the reader of this direction sees end-of-file once it has drained what was sent; the other direction lives on
 	closed  [2]bool // local Close called on client(0) / server(1) end
 	dl      [2]time.Time
 	dlTimer [2]*time.Timer
@@ -470,7 +472,7 @@ func (c *Conn) Read(p []byte) (int, error) {
 		if lk.fault == RST {
 			return 0, errReset
 		}
-		if lk.closed[1-c.end] || lk.fault == FIN {
+		if lk.closed[1-c.end] || lk.fault == FIN || lk.eof[d] {
 			return 0, io.EOF
 		}
 		if !lk.dl[c.end].IsZero() && !time.Now().Before(lk.dl[c.end]) {
@@ -489,11 +491,14 @@ func (c *Conn) Write(p []byte) (int, error) {
 	lk.mu.Lock()
 	defer lk.mu.Unlock()
 	// back-pressure: a stalled direction accepts nothing until the link dies or an end closes
-	for lk.stall[d] && lk.fault == None && !lk.closed[0] && !lk.closed[1] {
+	for lk.stall[d] && !lk.werr[d] && lk.fault == None && !lk.closed[0] && !lk.closed[1] {
 		lk.cond.Wait()
 	}
 	if lk.closed[c.end] {
 		return 0, net.ErrClosed
+	}
+	if lk.werr[d] {
+		return 0, &net.OpError{Op: "write", Net: "vnet", Err: errors.New("broken pipe")}
 	}
 	switch lk.fault {
 	case RST:
@@ -716,5 +721,24 @@ func TextFrame(payload []byte, fromClient bool) []byte {
 func (lk *Link) Stall(d Dir) {
 	lk.mu.Lock()
 	lk.stall[d] = true
+	lk.mu.Unlock()
+}
+
+// BreakWrites makes every further write in direction d fail with "broken pipe" while neither
+// reader is told anything: the half-broken connection a sender sees after its own side has shut
+// down for writing (or the path has started rejecting its packets) and before any read fails.
+func (lk *Link) BreakWrites(d Dir) {
+	lk.mu.Lock()
+	lk.werr[d] = true
+	lk.cond.Broadcast()
+	lk.mu.Unlock()
+}
+
+// HalfClose ends direction d only: its reader sees end-of-file after draining what was sent,
+// the opposite direction keeps working (or stalling) as before.
+func (lk *Link) HalfClose(d Dir) {
+	lk.mu.Lock()
+	lk.eof[d] = true
+	lk.cond.Broadcast()
 	lk.mu.Unlock()
 }
